@@ -706,6 +706,9 @@ func (b *Buffer) writeBigInt64BE(call goja.FunctionCall) goja.Value {
 	bb := Bytes(b.r, call.This)
 	value := goutil.RequiredBigIntArgument(b.r, call, "value", 0)
 	offset := b.getOffsetArgument(call, 1, bb, 8)
+	if !value.IsInt64() {
+		panic(errors.NewArgumentOutOfRangeError(b.r, "value", value))
+	}
 
 	intValue := value.Int64()
 	binary.BigEndian.PutUint64(bb[offset:offset+8], uint64(intValue))
@@ -718,6 +721,9 @@ func (b *Buffer) writeBigInt64LE(call goja.FunctionCall) goja.Value {
 	bb := Bytes(b.r, call.This)
 	value := goutil.RequiredBigIntArgument(b.r, call, "value", 0)
 	offset := b.getOffsetArgument(call, 1, bb, 8)
+	if !value.IsInt64() {
+		panic(errors.NewArgumentOutOfRangeError(b.r, "value", value))
+	}
 
 	intValue := value.Int64()
 	binary.LittleEndian.PutUint64(bb[offset:offset+8], uint64(intValue))
@@ -730,6 +736,9 @@ func (b *Buffer) writeBigUInt64BE(call goja.FunctionCall) goja.Value {
 	bb := Bytes(b.r, call.This)
 	value := goutil.RequiredBigIntArgument(b.r, call, "value", 0)
 	offset := b.getOffsetArgument(call, 1, bb, 8)
+	if !value.IsUint64() {
+		panic(errors.NewArgumentOutOfRangeError(b.r, "value", value))
+	}
 
 	uintValue := value.Uint64()
 	binary.BigEndian.PutUint64(bb[offset:offset+8], uintValue)
@@ -742,6 +751,9 @@ func (b *Buffer) writeBigUInt64LE(call goja.FunctionCall) goja.Value {
 	bb := Bytes(b.r, call.This)
 	value := goutil.RequiredBigIntArgument(b.r, call, "value", 0)
 	offset := b.getOffsetArgument(call, 1, bb, 8)
+	if !value.IsUint64() {
+		panic(errors.NewArgumentOutOfRangeError(b.r, "value", value))
+	}
 
 	uintValue := value.Uint64()
 	binary.LittleEndian.PutUint64(bb[offset:offset+8], uintValue)
